@@ -1,15 +1,22 @@
-(* BatchStressCorr.v — free-running (ungated) concurrent batches in stop mode.  The run: workers - 1
-   items are held inside their exec callback by the harness; the next worker runs an item that
-   fails; the harness lets the held items go a fixed time D later (20..60 ms), while the rest of
-   the queue - hundreds of thousands of instant items - takes several times D to drain.
-   What every schedule allows (C09_stop_skips, C09_stop_flag_permanent, C07_one_worker_per_item):
-   until the failure is recorded only the one free worker receives items, in index order, so
-   the executed items are the held ones and a prefix of the others ending with the failing item;
-   once the failure is recorded the flag is up for good and every item received later is
-   skipped.  So, PROVIDED the failure is recorded before the held items are let go (the worker
-   is not suspended for more than D between returning from the item's processing and taking
-   the mutex - a timing assumption of this part, stated in DESIGN.md 14.5), no executed item has
-   a larger index than a skipped one; the check allows workers - 1 of them.  Indices are Z. *)
+(* BatchStressCorr.v — free-running (ungated) concurrent batches in stop mode with TWO workers.
+   The run: item 0 is held inside its exec callback by the harness; the other worker runs items
+   1, 2, ... of which exactly one (f in 1..3) fails, all others succeed at once; the harness lets
+   item 0 go 20..60 ms after the failing call began, while the rest of the queue - hundreds of
+   thousands of items - takes several times longer to drain.
+   For EVERY schedule of such a run - two workers, exactly one failing item f, no cancellation -
+   no executed item has a larger index than a skipped one (C09_stop_flag_permanent: the flag,
+   once up, stays up; it is raised by the worker that ran f, right after that call and before
+   that worker receives anything else; C07_one_worker_per_item; FIFO queue, one submitter).
+   Argument: let X be skipped and Y > X executed; A is the worker that received X, so Y, received
+   later while A had not yet checked X, was received by the other worker O; check(Y) precedes the
+   raising of the flag, check(X) follows it.  X < f is impossible: a worker that receives an
+   item below f either runs it with the flag still down, or it was held by item 0 until f's call
+   had begun, when everything up to f had been handed out.  X > f: if A ran f, A raised the
+   flag before receiving X, so before Y was received, so before check(Y) - contradiction; if O
+   ran f, O raised the flag before receiving Y - contradiction.  No timing is assumed (with three
+   or more workers a third worker could run Y while two others are suspended at the right
+   places, which is why this part uses two).  The check allows one such item all the same.
+   Indices are Z. *)
 From Coq Require Export List ZArith Bool.
 Export ListNotations.
 #[local] Open Scope Z_scope.
